@@ -13,10 +13,83 @@ from .. import core, evalfin, gen, pymach as pm, sx
 # byte triples
 # ----------------------------------------------------------------------------------------------
 
-def steered_triple(rng, length):
+def positivity_triple(rng):
+    """Mu over pending substitutions, and Instantiate against positivity/negativity constraints: the arms of
+    positive/negative that ordinary proofs never reach"""
+    X, Y = rng.choice(gen.IDS), rng.choice(gen.IDS)
+    lists = lambda: tuple(sorted(rng.sample(gen.IDS, rng.choice((0, 1, 1, 2)))))   # noqa: E731
+    mv = ('mv', rng.choice(gen.IDS), (), (), lists(), lists(), ())
+    plug = gen.gen_pat(rng, rng.choice((0, 1, 2)), meta=False)
+    if rng.random() < 0.6:
+        plug = rng.choice([('svar', Y), ('imp', ('svar', Y), pm.BOT), ('imp', ('imp', ('svar', Y), pm.BOT), pm.BOT), plug])
+    kind = rng.choice(('ssub', 'ssub', 'esub'))
+    body = (kind, mv, X, plug)
+    if rng.random() < 0.3:
+        body = ('ssub', body, rng.choice(gen.IDS), gen.gen_pat(rng, 1, meta=False))
+    if rng.random() < 0.5:
+        instrs = pm.build(body) + [('mu', Y)]
+    else:
+        # instantiate a metavariable that declares Y positive / negative with the substitution pattern
+        target = ('mv', 7, (), (), (Y,) if rng.random() < 0.5 else (), (Y,) if rng.random() < 0.5 else (), ())
+        instrs = pm.build(body) + pm.build(target) + [('instantiate', (7,))]
+    return [], [], gen.enc_all(instrs)
+
+
+def side_condition_triple(rng):
+    """imp_refl(E) for a random meta-pattern E, followed by 1-3 rule applications that each carry a side condition
+    (Generalization, Substitution, Instantiate); the final term — computed with a LENIENT mirror, i.e. as a checker that lost
+    the side condition would compute it — is claimed and published.  The real checker must either reject, or the claim is valid."""
+    for _ in range(20):
+        E = gen.gen_pat(rng, rng.choice((1, 2, 2, 3)), wf_shape=True)
+        if pm.machine_wf(E):
+            break
+    else:
+        E = pm.phi(0)
+    instrs = imp_refl(E)
+    m = pm.Mach()
+    pm.LENIENT = True
+    try:
+        for ins in instrs:
+            m.step(ins, 'proof')
+        for _ in range(rng.choice((1, 2, 2, 3))):
+            k = rng.random()
+            if k < 0.35:
+                seq = [('gen', rng.choice(gen.IDS))]
+            elif k < 0.6:
+                plug = gen.gen_pat(rng, rng.choice((0, 1, 1, 2)), meta=rng.random() < 0.3)
+                idx = len(m.memory)
+                seq = [('save',), ('pop',)] + pm.build(plug) + [('load', idx), ('subst', rng.choice(gen.IDS))]
+            else:
+                n = rng.choice((1, 1, 2))
+                ids = [rng.choice(gen.IDS) for _ in range(n)]
+                idx = len(m.memory)
+                seq = [('save',), ('pop',)]
+                for _ in range(n):
+                    seq += pm.build(gen.gen_pat(rng, rng.choice((0, 1, 2)), meta=rng.random() < 0.4))
+                seq += [('load', idx), ('instantiate', tuple(ids))]
+            m2 = m.copy()
+            try:
+                for ins in seq:
+                    m2.step(ins, 'proof')
+            except Exception:
+                continue
+            m = m2
+            instrs = instrs + seq
+    except Exception:
+        pm.LENIENT = False
+        return [], [], gen.enc_all(instrs)
+    finally:
+        pm.LENIENT = False
+    if not m.stack or m.stack[-1][0] != 'T':
+        return [], [], gen.enc_all(instrs)
+    claim = m.stack[-1][1]
+    return [], gen.enc_all(pm.build(claim) + [('publish',)]), gen.enc_all(instrs + [('publish',)])
+
+
+def steered_triple(rng, length, lenient=False):
     """(gamma, claim, proof) with empty gamma: a steered proof-phase walk; the top proved terms
     of its final stack are turned into claims and published."""
-    instrs, m = gen.gen_proof_stream(rng, length, 'proof')
+    instrs, m = gen.gen_proof_stream(rng, length, 'proof', lenient_ok=lenient)
     claim_instrs = []
     if m is not None:
         proved_top = []
@@ -196,9 +269,16 @@ def make_triples(rng, tier, n_random):
             mt = list(t)
             mt[which] = gen.mutate(rng, t[which])
             triples.append(tuple(mt)); tags.append(f'shipped-mut:{name}')
+    for i in range(max(20, n_random // 8)):
+        triples.append(positivity_triple(rng)); tags.append('positivity')
+    for i in range(max(60, n_random // 3)):
+        triples.append(side_condition_triple(rng)); tags.append('side-condition')
     for i in range(n_random):
         r = rng.random()
-        if r < 0.7:
+        if r < 0.2:
+            t = steered_triple(rng, rng.choice((8, 15, 25, 40)), lenient=True)
+            tag = 'steered-lenient'
+        elif r < 0.7:
             t = steered_triple(rng, rng.choice((8, 15, 25, 40)))
             tag = 'steered'
         else:
